@@ -464,7 +464,7 @@ static double weighted_quantile(const uint64_t un,
                 uj++;
             }
 
-            return (uj < un) ? 0.5 * (xa[ui] + xa[uj]) : xa[ui];
+            return (uj < un) ? cmi_dataset_midpoint(xa[ui], xa[uj]) : xa[ui];
         }
     }
 
